@@ -2,6 +2,7 @@ package dbt
 
 import (
 	"go.mongodb.org/mongo-driver/bson"
+	"go.mongodb.org/mongo-driver/bson/primitive"
 )
 
 // Targeted scenarios.  Every scenario is a short history on a fresh engine; each
@@ -512,6 +513,23 @@ func NestedScenarios() []Scenario {
 			e.FindOneAndDelete(sns, d("h", int32(2)), d("g", int32(1)), nil),
 			e.Find(sns, d(), d("g", int32(1), "h", int32(1)), nil, 0, 0),
 			e.Find(sns, d(), nil, nil, 0, 0)}
+	})
+	// binary values of different lengths and subtypes: ordered by length, then subtype, then bytes - in sorted reads,
+	// range filters, $min / $max and sorted one-document writes
+	add("binary-order", func(e *Env) []Call {
+		bin := func(st byte, b ...byte) primitive.Binary { return primitive.Binary{Subtype: st, Data: b} }
+		vals := []primitive.Binary{bin(0, 9), bin(0, 1, 2), bin(0, 1, 2, 3), bin(1, 1), bin(0), bin(5, 0, 0), bin(0, 200), bin(0, 1, 255)}
+		var docs []bson.D
+		for i, v := range vals {
+			docs = append(docs, d("_id", int32(i+1), "k", v, "m", vals[(i+3)%len(vals)]))
+		}
+		return []Call{e.InsertMany(sns, docs, true),
+			e.Find(sns, d(), d("k", int32(1)), nil, 0, 0), e.Find(sns, d(), d("k", int32(-1)), nil, 1, 3),
+			e.Find(sns, d("k", d("$gt", bin(0, 9))), d("_id", int32(1)), nil, 0, 0), e.Find(sns, d("k", d("$lte", bin(0, 1, 2))), d("_id", int32(1)), nil, 0, 0),
+			e.Count(sns, d("k", d("$gte", bin(0, 1, 2), "$lt", bin(0, 1, 2, 3))), 0, 0),
+			e.Update(sns, true, d(), d("$max", d("m", bin(0, 5, 5))), false, nil), e.Update(sns, true, d(), d("$min", d("k", bin(0, 7))), false, nil),
+			e.FindOneAndDelete(sns, d(), d("m", int32(-1)), nil), e.FindOneAndUpdate(sns, d(), d("$set", d("first", true)), d("k", int32(1), "_id", int32(1)), nil, false, true, nil),
+			e.CreateIndex(sns, IndexSpec{Key: d("m", int32(1)), Expire: -1}), e.Distinct(sns, "k", d()), e.Find(sns, d(), d("m", int32(1), "_id", int32(1)), nil, 0, 0)}
 	})
 	// the same array value stored into several documents by one call, then changed in one of them
 	add("shared-value", func(e *Env) []Call {
